@@ -3,6 +3,7 @@ package props
 import (
 	"fmt"
 	"go/token"
+	"go/types"
 	"sort"
 	"strings"
 
@@ -242,23 +243,97 @@ func passThrough(c *Ctx, rule, key string, fn *ssa.Function, s flow.Site, want [
 	ok := true
 	args := s.Instr.Common().Args
 	if len(args) != len(want) {
-		c.Run.Bad(rule, key, ipos(c, s.Instr), fmt.Sprintf("%d arguments", len(want)), fmt.Sprintf("%d arguments", len(args)))
+		// a different signature (parameters folded into a struct, one added or dropped): not the shape this rule reads
+		c.Run.Unknown(rule, key, ipos(c, s.Instr), fmt.Sprintf("%d arguments", len(want)), fmt.Sprintf("%d arguments: the callee's parameter list is not the one the rule was written for", len(args)))
 		return false
+	}
+	norm := func(t *flow.Term) *flow.Term {
+		if t.Op == "addr" && len(t.Args) == 1 {
+			return t.Args[0] // pointer to a local: compare the content it holds at the call
+		}
+		return t
+	}
+	// The expectation is written in the callee's parameter order. Where an expected term is a whole parameter of fn
+	// whose type occurs once among fn's parameters and once among the callee's, the type system fixes its position:
+	// if the helper's parameters were reordered, the term is expected at the position of its type.
+	at := make([]int, len(want)) // position at which want[i] is expected
+	for i := range at {
+		at[i] = i
+	}
+	if sig := calleeSignature(s); sig != nil && sig.Params().Len() == len(args) {
+		count := func(ts []types.Type, t types.Type) (n, pos int) {
+			for i, u := range ts {
+				if types.Identical(u, t) {
+					n++
+					pos = i
+				}
+			}
+			return
+		}
+		var fnT, ceT []types.Type
+		for _, q := range fn.Params {
+			fnT = append(fnT, q.Type())
+		}
+		for i := 0; i < sig.Params().Len(); i++ {
+			ceT = append(ceT, sig.Params().At(i).Type())
+		}
+		moved := map[int]bool{}
+		for i, w := range want {
+			if norm(s.Args[i]).Equal(w) || w.Op != "param" || len(w.Args) != 0 {
+				continue
+			}
+			var j int
+			if _, err := fmt.Sscanf(w.Val, "%d", &j); err != nil || j < 0 || j >= len(fnT) {
+				continue
+			}
+			nf, _ := count(fnT, fnT[j])
+			nc, pos := count(ceT, fnT[j])
+			if nf == 1 && nc == 1 && pos != i {
+				at[i] = pos
+				moved[pos] = true
+			}
+		}
+		// positions vacated by a move take the expectations that were displaced, when their types decide it too;
+		// otherwise they keep their own index and are compared there
+		for i, w := range want {
+			if at[i] == i && moved[i] && !(w.Op == "param" && len(w.Args) == 0) {
+				// a constant or computed argument (a type byte): its position is the one not taken by typed moves
+				for k := range want {
+					free := true
+					for i2 := range want {
+						if at[i2] == k && i2 != i {
+							free = false
+						}
+					}
+					if free && !moved[k] {
+						at[i] = k
+						break
+					}
+				}
+			}
+		}
 	}
 	var gots []string
 	for i := range args {
-		t := s.Args[i]
-		if t.Op == "addr" && len(t.Args) == 1 {
-			t = t.Args[0] // pointer to a local: compare the content it holds at the call
+		gots = append(gots, norm(s.Args[i]).String())
+	}
+	taken := map[int]bool{}
+	for i := range want {
+		if taken[at[i]] {
+			c.Run.Unknown(rule, key, ipos(c, s.Instr), "the callee's parameter order the rule was written for", "parameters reordered in a way the types do not decide")
+			return false
 		}
-		gots = append(gots, t.String())
+		taken[at[i]] = true
+	}
+	for i := range want {
+		t := norm(s.Args[at[i]])
 		if !t.Equal(want[i]) {
 			ok = false
 			k := fmt.Sprintf("%s/arg%d", key, i)
 			if t.IsUnknown() {
-				c.Run.Unknown(rule, k, ipos(c, s.Instr), "argument "+fmt.Sprint(i)+" of "+s.Callee+" = "+want[i].String(), t.String())
+				c.Run.Unknown(rule, k, ipos(c, s.Instr), "argument "+fmt.Sprint(at[i])+" of "+s.Callee+" = "+want[i].String(), t.String())
 			} else {
-				c.Run.Bad(rule, k, ipos(c, s.Instr), "argument "+fmt.Sprint(i)+" of "+s.Callee+" = "+want[i].String(), short(t.String()))
+				c.Run.Bad(rule, k, ipos(c, s.Instr), "argument "+fmt.Sprint(at[i])+" of "+s.Callee+" = "+want[i].String(), short(t.String()))
 			}
 		}
 	}
@@ -270,6 +345,13 @@ func passThrough(c *Ctx, rule, key string, fn *ssa.Function, s flow.Site, want [
 		c.Run.OK(rule, key, ipos(c, s.Instr), s.Callee+"("+strings.Join(ws, ", ")+")", strings.Join(gots, ", "), true)
 	}
 	return ok
+}
+
+func calleeSignature(s flow.Site) *types.Signature {
+	if s.Static != nil && s.Static.Signature.Recv() == nil {
+		return s.Static.Signature
+	}
+	return nil
 }
 
 // oneSite requires exactly one call site of the named callee in fn.
